@@ -38,11 +38,10 @@ theorem SidsBelow_step (guard : SplitGuard) (s : State) (op : Op) (h : SidsBelow
     rw [hues] at hu
     rcases mem_putUe hu with hu' | hu'
     · subst hu'
-      rcases hkeys sid hs with hk | hk | ⟨a, b, hk, hseq⟩
+      rcases hkeys sid hs with hk | ⟨a, b, hk, hseq⟩
       · rcases hmem with hm | hm
         · exact SidBelow_mono (h ue hm sid hk) hle
         · simp [keysOf, hm] at hk
-      · left; exact hk
       · right; exact ⟨a, b, s.sessionSeq, hk, by omega⟩
     · exact SidBelow_mono (h u hu' sid hs) hle
 
